@@ -68,6 +68,21 @@ def main():
     findings_seen = []
     edits = []
 
+    # ---------------- anchors: syntactic side conditions the contracts rest on (a lost anchor is UNDECIDED, never an alarm)
+    for an in spec.get('anchors', []):
+        try:
+            txt = open(os.path.join(REPO, an['file']), encoding='utf-8').read()
+        except OSError as e:
+            undecided.append('anchor %s: %s' % (an['what'], e))
+            continue
+        from extract import code_mask
+        code = code_mask(txt)
+        tm = re.search(r'#\[cfg\(test\)\]\s*mod\b', code)     # the test modules of this crate close each file
+        if tm:
+            code = code[:tm.start()]
+        n = len(re.findall(an['regex'], code))
+        if n != an['count']:
+            undecided.append('anchor lost: %s (%s: /%s/ occurs %d times, expected %d)' % (an['what'], an['file'], an['regex'], n, an['count']))
     # ---------------- Verus units
     for unit in spec.get('verus', []):
         tpl = os.path.join(VERIF, 'contracts', unit + '.vtpl')
